@@ -108,6 +108,17 @@ def head_mutations(rng):
                 (f"redirect-{st.decode()}-dot-host", base + b"Location: ws://./\r\n\r\n"),
                 (f"redirect-{st.decode()}-nonascii-host", base + "Location: ws://b\u00fccher.test/\r\n\r\n".encode()),
                 (f"redirect-{st.decode()}-long-name", base + b"Location: ws://" + b".".join([b"a" * 60] * 5) + b"/\r\n\r\n")]
+    # every single byte inside, before and after the host of a redirect target (NUL and other control characters, blanks, '%', '@',
+    # '\\', 8-bit bytes): the name travels through the no_proxy matching and the resolver of the follow-up connection
+    base = b"HTTP/1.1 302 Moved\r\n"
+    for b in range(256):
+        if b in (0x0a, 0x0d):
+            continue
+        ch = bytes([b])
+        out.append((f"redirect-302-host-byte-{b:02x}-inside", base + b"Location: ws://a" + ch + b"b.test/r\r\n\r\n"))
+        if b % 4 == 0 or b < 0x30:
+            out.append((f"redirect-302-host-byte-{b:02x}-first", base + b"Location: ws://" + ch + b"ab.test/r\r\n\r\n"))
+            out.append((f"redirect-302-host-byte-{b:02x}-port", base + b"Location: ws://ab.test:8" + ch + b"/r\r\n\r\n"))
     return out
 
 
